@@ -136,3 +136,223 @@ pub fn parse_list_z(stdout: &[u8]) -> Vec<(Vec<u8>, Option<Vec<u8>>)> {
     }
     res
 }
+
+// ---------------------------------------------------------------------------------------------------------------------
+// Transcription of git 2.39 config.c (git_parse_source/get_base_var/get_extended_base_var/get_value/parse_value).
+// Used only as a *pre-filter and batching aid*: every answer that decides a verdict is confirmed by the git binary.
+// ---------------------------------------------------------------------------------------------------------------------
+struct Src<'a> {
+    b: &'a [u8],
+    at: usize,
+    eof: bool,
+}
+impl Src<'_> {
+    fn fgetc(&mut self) -> Option<u8> {
+        let c = self.b.get(self.at).copied();
+        if c.is_some() {
+            self.at += 1;
+        }
+        c
+    }
+    fn next(&mut self) -> u8 {
+        let mut c = self.fgetc();
+        if c == Some(b'\r') {
+            c = self.fgetc();
+            if c != Some(b'\n') {
+                if c.is_some() {
+                    self.at -= 1;
+                }
+                c = Some(b'\r');
+            }
+        }
+        match c {
+            Some(c) => c,
+            None => {
+                self.eof = true;
+                b'\n'
+            }
+        }
+    }
+}
+fn git_isspace(c: u8) -> bool {
+    matches!(c, b' ' | b'\t' | b'\n' | b'\r')
+}
+fn iskeychar(c: u8) -> bool {
+    c.is_ascii_alphanumeric() || c == b'-'
+}
+
+fn parse_value(s: &mut Src<'_>) -> Option<Vec<u8>> {
+    let (mut quote, mut comment, mut space) = (false, false, 0usize);
+    let mut v = Vec::new();
+    loop {
+        let mut c = s.next();
+        if c == b'\n' {
+            return if quote { None } else { Some(v) };
+        }
+        if comment {
+            continue;
+        }
+        if git_isspace(c) && !quote {
+            if !v.is_empty() {
+                space += 1;
+            }
+            continue;
+        }
+        if !quote && (c == b';' || c == b'#') {
+            comment = true;
+            continue;
+        }
+        while space > 0 {
+            v.push(b' ');
+            space -= 1;
+        }
+        if c == b'\\' {
+            c = s.next();
+            match c {
+                b'\n' => continue,
+                b't' => c = b'\t',
+                b'b' => c = 8,
+                b'n' => c = b'\n',
+                b'\\' | b'"' => {}
+                _ => return None,
+            }
+            v.push(c);
+            continue;
+        }
+        if c == b'"' {
+            quote = !quote;
+            continue;
+        }
+        v.push(c);
+    }
+}
+
+/// What `git config -f F --list` would print for `text`, or None if git refuses the file.
+pub fn git_transcription(text: &[u8]) -> Option<Vec<(Vec<u8>, Option<Vec<u8>>)>> {
+    let mut s = Src { b: text, at: 0, eof: false };
+    let mut out = Vec::new();
+    let mut var: Vec<u8> = Vec::new();
+    let mut baselen = 0usize;
+    let mut comment = false;
+    const BOM: &[u8] = b"\xef\xbb\xbf";
+    let mut bom: Option<usize> = Some(0);
+    loop {
+        let c = s.next();
+        if let Some(i) = bom {
+            if i < BOM.len() {
+                if c == BOM[i] && !s.eof {
+                    bom = Some(i + 1);
+                    continue;
+                } else if i != 0 {
+                    return None;
+                } else {
+                    bom = None;
+                }
+            }
+        }
+        if c == b'\n' {
+            if s.eof {
+                return Some(out);
+            }
+            comment = false;
+            continue;
+        }
+        if comment || git_isspace(c) {
+            continue;
+        }
+        if c == b'#' || c == b';' {
+            comment = true;
+            continue;
+        }
+        if c == b'[' {
+            var.clear();
+            // get_base_var
+            let ok = loop {
+                let c = s.next();
+                if s.eof {
+                    break false;
+                }
+                if c == b']' {
+                    break true;
+                }
+                if git_isspace(c) {
+                    // get_extended_base_var
+                    let mut c = c;
+                    let mut fail = false;
+                    loop {
+                        if c == b'\n' {
+                            fail = true;
+                            break;
+                        }
+                        c = s.next();
+                        if !git_isspace(c) {
+                            break;
+                        }
+                    }
+                    if fail || c != b'"' {
+                        break false;
+                    }
+                    var.push(b'.');
+                    let mut bad = false;
+                    loop {
+                        let mut c = s.next();
+                        if c == b'\n' {
+                            bad = true;
+                            break;
+                        }
+                        if c == b'"' {
+                            break;
+                        }
+                        if c == b'\\' {
+                            c = s.next();
+                            if c == b'\n' {
+                                bad = true;
+                                break;
+                            }
+                        }
+                        var.push(c);
+                    }
+                    if bad {
+                        break false;
+                    }
+                    break s.next() == b']';
+                }
+                if !iskeychar(c) && c != b'.' {
+                    break false;
+                }
+                var.push(c.to_ascii_lowercase());
+            };
+            if !ok || var.is_empty() {
+                return None;
+            }
+            var.push(b'.');
+            baselen = var.len();
+            continue;
+        }
+        if !c.is_ascii_alphabetic() {
+            return None;
+        }
+        var.truncate(baselen);
+        var.push(c.to_ascii_lowercase());
+        // get_value
+        let mut c;
+        loop {
+            c = s.next();
+            if s.eof || !iskeychar(c) {
+                break;
+            }
+            var.push(c.to_ascii_lowercase());
+        }
+        while c == b' ' || c == b'\t' {
+            c = s.next();
+        }
+        let mut value = None;
+        if c != b'\n' {
+            if c != b'=' {
+                return None;
+            }
+            value = Some(parse_value(&mut s)?);
+        }
+        out.push((var.clone(), value));
+    }
+}
